@@ -225,3 +225,57 @@ def same_value(a, b):
 
 def same_params(a, b):
     return set(a) == set(b) and all(same_value(a[k], b[k]) for k in a)
+
+
+# ----------------------------------------------------------------------------- exhaustive small rule universe
+# One entry per '/'-separated segment: a tuple of parts; str = literal text, ('W', filter, arg, named) = wildcard.
+SEGMENT_ALPHABET = (
+    ('a',), ('ab',), ('b',),
+    (('W', None, None, True),),                 # :x
+    (('W', None, None, False),),                # ':' anonymous plain (final position only)
+    (('W', 'int', None, True),),
+    (('W', 'int', None, False),),               # anonymous int
+    (('W', 'float', None, True),),
+    (('W', 're', '[ab]+', True),),
+    (('W', 're', 'a*', True),),
+    (('W', 'path', None, True),),
+    ('a', ('W', None, None, True)),             # a<x>
+    ('a', ('W', None, None, True), 'b'),        # a<x>b
+    (('W', None, None, True), 'b'),             # <x>b
+    (('W', 'int', None, True), ('W', None, None, True)),   # <n:int><x>   adjacent wildcards
+    ('a', ('W', 'int', None, True), '-', ('W', 'int', None, True)),   # a<n:int>-<m:int>
+    (('W', 'path', None, True), 'b'),           # <p:path>b
+)
+
+
+def universe_rules(maxseg, names=('x', 'y', 'z', 'u', 'v', 'w'), alphabet=SEGMENT_ALPHABET):
+    """Every valid rule of 1..maxseg '/'-separated segments over `alphabet`; wildcards are named in order
+    of appearance from `names` (so two universes built with different `names` give same-pattern rules
+    with different parameter names)."""
+    out = []
+    for nseg in range(1, maxseg + 1):
+        for combo in itertools.product(alphabet, repeat=nseg):
+            merged = []
+            k = 0
+            for seg in combo:
+                for prt in ('/',) + seg:
+                    if isinstance(prt, str):
+                        if merged and isinstance(merged[-1], str):
+                            merged[-1] += prt
+                        else:
+                            merged.append(prt)
+                    else:
+                        _w, filt, arg, named = prt
+                        name = None
+                        if named:
+                            name = names[k]
+                            k += 1
+                        merged.append(W(name, filt, arg))
+            rule = [Lit(q) if isinstance(q, str) else q for q in merged]
+            if S.valid_rule(rule):
+                out.append(rule)
+    return out
+
+
+def rule_has_wildcard(rule):
+    return any(not S.is_lit(seg) for seg in rule)
